@@ -91,6 +91,16 @@ func authProgram(rt *rapid.T, c *ev.Collector) program {
 }
 
 func runAuthProgram(tr *trio, c *ev.Collector, t ev.Failer, p *program) *runner {
+	// same empty dataset on the three servers (a failed case may have stopped half way)
+	for _, s := range tr.srv {
+		adm := s.MustDial()
+		for _, cmd := range [][]string{{"AUTH", authPass}, {"FLUSHDB"}, {"SCRIPT", "FLUSH"}} {
+			if v := adm.MustDo(cmd...); v.IsErr() {
+				panic(fmt.Sprintf("auth reset %v: %s", cmd, v))
+			}
+		}
+		adm.Close()
+	}
 	if err := tr.openLanes(); err != nil {
 		panic(err)
 	}
@@ -527,6 +537,10 @@ var streamKinds = []string{"resp", "json", "native", "ws"}
 func runStreamCase(c *ev.Collector, fail func(key, what string), tr *trio, sc streamCase, kinds []string) map[string]bool {
 	labels := map[string]bool{}
 	if err := tr.reset(); err != nil {
+		if isDialErr(err) {
+			c.Inconclusive("cannot reset: %v", err)
+			return labels
+		}
 		panic(err)
 	}
 	srv := tr.srv[0]
@@ -557,6 +571,10 @@ func runStreamCase(c *ev.Collector, fail func(key, what string), tr *trio, sc st
 		}
 		s, err := openStream(srv.Addr, kind, openArgs)
 		if err != nil {
+			if isDialErr(err) {
+				c.Inconclusive("cannot open the %s stream: %v", kind, err)
+				return labels
+			}
 			fail("transport:stream", fmt.Sprintf("%s: %v", kind, err))
 		}
 		ss = append(ss, s)
